@@ -4,10 +4,14 @@
    Reading guide.  [spec_int lo hi nanv o] is the documented coercion of node [o] to the integer
    type [lo, hi]: clamp(trunc(value)) with ERANGE exactly when the value lies outside the type,
    EINVAL (and the documented value) for NaN and for texts without a number, 0 for null and
-   containers.  [wf] is the representation invariant of integer nodes.  A statement that the
-   CURRENT json-c code does not satisfy appears three times: negated at full strength
-   (`_full_refuted`, with the computed witness as `_refuted`), under its guard (`_partial`), and
-   with the proof that the guard is exact (`_ub_iff`). *)
+   containers.  [spec_uint] is [spec_int 0 UINT64_MAX 0] except that a text with a '-' sign has no
+   uint64 conversion (0 with EINVAL, "-0" included).  [wf] is the representation invariant of
+   integer nodes.
+   History: five statements were refuted by the code before the C10 `fix:` commits in /repo
+   (get_int64 at the double 2^63, get_uint64 at 2^64, int_inc of a uint64 node by INT64_MIN,
+   get_uint64 of "\t-5" and of "-5"; known_findings.json, status fixed).  Since the repairs every
+   statement below holds at full strength: there is no `_partial` or `_refuted` theorem left.  The
+   former witnesses are C10_former_witnesses. *)
 From JC Require Import Base Value NumModel NumProofs.
 Local Open Scope Z_scope.
 
@@ -24,65 +28,30 @@ Print Assumptions C10_get_int_spec_no_ub.
 
 
 (* ------------------------------------------------------------------ get_int64 *)
-(* full strength — REFUTED by the current code (the double 2^63 reaches an undefined cast) *)
-Theorem C10_get_int64_spec_full_refuted :
-  ~ (forall e0 o, wf o -> get_int64 e0 o = ret_of (spec_int INT64_MIN INT64_MAX INT64_MIN o)).
-Proof. exact get_int64_spec_full_refuted. Qed.
-Print Assumptions C10_get_int64_spec_full_refuted.
-
-Theorem C10_get_int64_2p63_refuted : exists e0 o, wf o /\ get_int64 e0 o = UB.
-Proof. exact get_int64_no_ub_refuted. Qed.
-Print Assumptions C10_get_int64_2p63_refuted.
-
-(* guard: the node is not the double whose value is exactly 2^63 *)
-Theorem C10_get_int64_spec_partial : forall e0 o, wf o -> ~ is_dbl_val o TWO63 ->
+Theorem C10_get_int64_spec : forall e0 o, wf o ->
   get_int64 e0 o = ret_of (spec_int INT64_MIN INT64_MAX INT64_MIN o).
-Proof. exact get_int64_spec_partial. Qed.
-Print Assumptions C10_get_int64_spec_partial.
+Proof. exact get_int64_spec. Qed.
+Print Assumptions C10_get_int64_spec.
 
-
-(* the guard is exact: undefined behaviour is reached there and nowhere else (get_int64_no_ub) *)
-Theorem C10_get_int64_ub_iff : forall e0 o, wf o -> (get_int64 e0 o = UB <-> is_dbl_val o TWO63).
-Proof. exact get_int64_ub_iff. Qed.
-Print Assumptions C10_get_int64_ub_iff.
+Theorem C10_get_int64_no_ub : forall e0 o, wf o -> get_int64 e0 o <> UB.
+Proof. exact get_int64_no_ub. Qed.
+Print Assumptions C10_get_int64_no_ub.
 
 (* ------------------------------------------------------------------ get_uint64 *)
-Theorem C10_get_uint64_spec_full_refuted :
-  ~ (forall e0 o, wf o -> get_uint64 e0 o = ret_of (spec_int 0 UINT64_MAX 0 o)).
-Proof. exact get_uint64_spec_full_refuted. Qed.
-Print Assumptions C10_get_uint64_spec_full_refuted.
+Theorem C10_get_uint64_spec : forall e0 o, wf o -> get_uint64 e0 o = ret_of (spec_uint o).
+Proof. exact get_uint64_spec. Qed.
+Print Assumptions C10_get_uint64_spec.
 
-Theorem C10_get_uint64_2p64_refuted : exists e0 o, wf o /\ get_uint64 e0 o = UB.
-Proof. exact get_uint64_no_ub_refuted. Qed.
-Print Assumptions C10_get_uint64_2p64_refuted.
+Theorem C10_get_uint64_no_ub : forall e0 o, wf o -> get_uint64 e0 o <> UB.
+Proof. exact get_uint64_no_ub. Qed.
+Print Assumptions C10_get_uint64_no_ub.
 
-(* a '-' after whitespace other than ' ' reaches strtoull: the negated value wraps *)
-Theorem C10_get_uint64_str_neg_wrap_refuted :
-  exists s, get_uint64 E_NONE (JStr s) = Ret (TWO64 - 5) E_NONE /\
-            ret_of (spec_int 0 UINT64_MAX 0 (JStr s)) = Ret 0 ERANGE.
-Proof. exact get_uint64_str_neg_wrap_refuted. Qed.
-Print Assumptions C10_get_uint64_str_neg_wrap_refuted.
-
-(* a '-' after spaces only: the failure is reported with errno left at 0 *)
-Theorem C10_get_uint64_str_minus_errno_refuted :
-  exists s1 s2,
-    get_uint64 E_NONE (JStr s1) = Ret 0 E_NONE /\ ret_of (spec_int 0 UINT64_MAX 0 (JStr s1)) = Ret 0 ERANGE /\
-    get_uint64 E_NONE (JStr s2) = Ret 0 E_NONE /\ ret_of (spec_int 0 UINT64_MAX 0 (JStr s2)) = Ret 0 EINVAL.
-Proof. exact get_uint64_str_minus_errno_refuted. Qed.
-Print Assumptions C10_get_uint64_str_minus_errno_refuted.
-
-(* guard: not the double 2^64; a string node has no '-' sign or denotes 0 *)
-Theorem C10_get_uint64_spec_partial : forall e0 o, wf o ->
-  (~ is_dbl_val o TWO64 /\ (forall s, o = JStr s -> str_minus s = false \/ str_int s = Some 0)) ->
-  get_uint64 e0 o = ret_of (spec_int 0 UINT64_MAX 0 o).
-Proof. exact get_uint64_spec_partial. Qed.
-Print Assumptions C10_get_uint64_spec_partial.
-
-
-(* get_uint64_no_ub, with its exact guard *)
-Theorem C10_get_uint64_ub_iff : forall e0 o, wf o -> (get_uint64 e0 o = UB <-> is_dbl_val o TWO64).
-Proof. exact get_uint64_ub_iff. Qed.
-Print Assumptions C10_get_uint64_ub_iff.
+(* the comparison matters: with `>` in place of `>=` (the code before the repair) the double
+   hi + 1 = (double)hi reaches an undefined cast *)
+Theorem C10_gt_comparison_reaches_ub : forall lo hi d, lo <= hi -> TWO52 <= hi -> fin_ok d ->
+  dval_trunc_is d (hi + 1) -> forall nanv, dbl_get_lh lo hi (hi + 1) nanv d = UB.
+Proof. exact dbl_get_lh_ub. Qed.
+Print Assumptions C10_gt_comparison_reaches_ub.
 
 (* ------------------------------------------------------------------ get_double: holds, for every strtod *)
 Theorem C10_get_double_spec : forall strtod e0 o, get_double strtod e0 o = ret_of (spec_double strtod e0 o).
@@ -163,31 +132,15 @@ Print Assumptions C10_set_wrong_kind.
 (* [inc_post o val o']: o' is an integer node satisfying the invariant, its value is
    clamp_[INT64_MIN, UINT64_MAX](value o + val), it is uint64 iff that exceeds INT64_MAX or
    (o was uint64 and the result is >= 0). *)
-Theorem C10_inc_exact_full_refuted :
-  ~ (forall o val, wf o -> is_intnode o = true -> INT64_MIN <= val <= INT64_MAX ->
-     exists o', int_inc o val = IOk 1 o' /\ inc_post o val o').
-Proof. exact inc_exact_full_refuted. Qed.
-Print Assumptions C10_inc_exact_full_refuted.
-
-Theorem C10_inc_uint_intmin_refuted :
-  exists o val, wf o /\ is_intnode o = true /\ INT64_MIN <= val <= INT64_MAX /\ int_inc o val = IUB.
-Proof. exact inc_exact_refuted. Qed.
-Print Assumptions C10_inc_uint_intmin_refuted.
-
-(* guard: not (uint64 node and increment INT64_MIN) *)
-Theorem C10_inc_exact_partial : forall o val,
+Theorem C10_inc_exact : forall o val,
   wf o -> is_intnode o = true -> INT64_MIN <= val <= INT64_MAX ->
-  ~ (is_uint o = true /\ val = INT64_MIN) ->
   exists o', int_inc o val = IOk 1 o' /\ inc_post o val o'.
-Proof. exact inc_exact_partial. Qed.
-Print Assumptions C10_inc_exact_partial.
+Proof. exact inc_exact. Qed.
+Print Assumptions C10_inc_exact.
 
-
-(* inc_no_ub, with its exact guard *)
-Theorem C10_inc_ub_iff : forall o val, wf o -> INT64_MIN <= val <= INT64_MAX ->
-  (int_inc o val = IUB <-> is_uint o = true /\ val = INT64_MIN).
-Proof. exact inc_ub_iff. Qed.
-Print Assumptions C10_inc_ub_iff.
+Theorem C10_inc_no_ub : forall o val, wf o -> INT64_MIN <= val <= INT64_MAX -> int_inc o val <> IUB.
+Proof. exact inc_no_ub. Qed.
+Print Assumptions C10_inc_no_ub.
 
 Theorem C10_inc_not_int : forall o val, is_intnode o = false -> int_inc o val = IOk 0 o.
 Proof. exact inc_not_int. Qed.
@@ -209,3 +162,14 @@ Proof.
         (conj (proj1 ex_inc_sat) ex_z_to_b64))))))))).
 Qed.
 Print Assumptions C10_nonvacuous.
+
+(* the witnesses of the five repaired defects give the documented results *)
+Theorem C10_former_witnesses :
+  get_int64 E_NONE (JDouble B64_2P63 None) = Ret INT64_MAX ERANGE /\
+  get_uint64 E_NONE (JDouble B64_2P64 None) = Ret UINT64_MAX ERANGE /\
+  (int_inc (JUint 5) INT64_MIN = IOk 1 (JInt (5 + INT64_MIN)) /\
+   int_inc (JUint UINT64_MAX) INT64_MIN = IOk 1 (JUint INT64_MAX)) /\
+  (get_uint64 E_NONE (JStr [9; 45; 53]) = Ret 0 EINVAL /\ get_uint64 E_NONE (JStr [45; 53]) = Ret 0 EINVAL /\
+   get_uint64 E_NONE (JStr [32; 45; 120]) = Ret 0 EINVAL /\ get_uint64 E_NONE (JStr [45; 48]) = Ret 0 EINVAL).
+Proof. exact (conj ex_fixed_2p63 (conj ex_fixed_2p64 (conj ex_fixed_inc ex_fixed_str))). Qed.
+Print Assumptions C10_former_witnesses.
